@@ -60,6 +60,16 @@ Bytes(p, n) == IF n = 0 THEN <<>> ELSE SubSeq(Buf, p + 1, p + n)
 TypeCh(p) == B(p) % 128
 Flag(p)   == B(p) >= 128 /\ Par.mv >= 3            \* FLAG_REF exists from format version 3
 
+(* Bytes written FOR a version (R.writer = 1: the output of xdis's writer) may use only the type codes that version's marshal.c   *)
+(* reads: binary float/complex from format 2 (2.5), interned strings and their back-references from format 1 (2.4), FLAG_REF     *)
+(* and 'r' from format 3, the ASCII string forms and the small tuple from format 4.  (A reader may be more liberal.)              *)
+WriterMode == "writer" \in DOMAIN R /\ R.writer = 1
+CodeKnownToTarget(c, flagbit) ==
+  /\ (c \in {103, 121}) => Par.mv >= 2
+  /\ (c \in {116, 82}) => Par.mv >= 1
+  /\ (flagbit \/ c = 114) => Par.mv >= 3
+  /\ (c \in {97, 65, 122, 90, 41}) => Par.mv >= 4
+
 (* ---- integers as <<sign, 15-bit digits>> ---- *)
 RECURSIVE Strip(_)
 Strip(d) == IF d # <<>> /\ d[Len(d)] = 0 THEN Strip(SubSeq(d, 1, Len(d) - 1)) ELSE d
@@ -251,6 +261,9 @@ ReadObject ==
      LET c == TypeCh(pos)
          f == Flag(pos)
      IN
+     IF WriterMode /\ ~CodeKnownToTarget(c, B(pos) >= 128)
+     THEN Hard("typecode_unknown_to_target", <<"marshal format version", Par.mv>>, B(pos))
+     ELSE
      CASE c = cNONE  -> Deliver(T0("none"), 1, FALSE)
        [] c = cTRUE  -> Deliver(T0("true"), 1, FALSE)
        [] c = cFALSE -> Deliver(T0("false"), 1, FALSE)
